@@ -15,7 +15,26 @@ Per exchange:
     => handler/endpoint not invoked, call fails with an ENC_* error
   * key selection: KeyRing._get_box on real rings (random prefix sets, set/delete, exact flag) == Lean `getBox`
 
-Self-test (scratch copy of /repo/src, VERIF_REPO), quick tier, 2026-09-23: see SELFTEST at the end of this file.
+Self-test (scratch copy of /repo/src, VERIF_REPO=/tmp/c1820m; quick tier, --no-proof; 2026-09-23). One edit each; "keys" are
+the Violation keys of the replays written (replay = scenario + fault + framework + serializer + observation;
+`./check C20 --replay <file>` reproduces: exit 1 mutated / 0 unchanged):
+  M1  protocol.py INVOCATION: envelope-vs-inner URI comparison skipped (`if False:`)   -> exit 1; call:handler-invoked-despite-fault
+  M2  protocol.py EVENT: `if topic != decoded_topic` skipped                            -> exit 1; pub:handler-invoked-despite-fault
+  M3  protocol.py _exception_from_message: `if msg.error != decrypted_error` skipped    -> exit 1; error:altered-error-accepted
+  M4  protocol.py EVENT: no `return` after a decode failure (deliver on decrypt failure) -> exit 1; pub:handler-invoked-despite-fault
+  M5  protocol.py RESULT: `if enc_err: reject` disabled (resolve on decrypt failure)     -> exit 1; yield:altered-result-accepted
+  M6  cryptobox.py _get_box: SHORTEST registered prefix instead of longest              -> exit 1; key-selection:not-longest-prefix,
+        pub/call/yield:handler-invoked-despite-fault, call/yield:call-did-not-fail-with-encryption-error (8 replays)
+  M7  protocol.py publish: `msg._args = args` kept on the sealed Publish                -> exit 0 (Publish.marshal ignores args when a
+        payload is set: nothing changes on the wire — equivalent mutant)
+  M7b cryptobox.py encode: payload = the plaintext envelope                             -> exit 1; */payload-not-recovered, clear-payload-on-the-wire (11)
+  M7c protocol.py call: `if encoded_payload:` -> `if False:` (args kept, payload dropped) -> exit 1; call/yield/error:originator-sent-clear-although-key-covers-uri
+  M8  cryptobox.py decode: box of the wrong role (`not is_originating`)                 -> exit 1; */payload-not-recovered ... (15, asymmetric layouts)
+  M9  protocol.py success(): `if msg.enc_algo:` -> `if False:` (YIELD never encrypted)   -> exit 1; yield:clear-payload-on-the-wire, yield:altered-result-accepted
+  M10 cryptobox.py _get_box: no default-key fallback                                    -> exit 1; */originator-sent-clear-although-key-covers-uri, key-selection:not-longest-prefix
+  M12 protocol.py INVOCATION: `if enc_err and False:` (endpoint invoked after decrypt failure) -> exit 1; call/yield/error:handler-invoked-despite-fault ... (8)
+  H1  harmless: `if not (proc == decrypted_proc)`                                        -> exit 0, silent
+  H2  harmless: `return key.originator_box if is_originating else key.responder_box`     -> exit 0, silent
 """
 import json
 import os
@@ -538,7 +557,3 @@ def oracle(sc, t, obs, box):
         out.append((f"{d}:clear-payload-on-the-wire", f"marker strings found in {obs['leaks']}"))
     return out
 
-
-SELFTEST = """
-(filled in from the self-test run; see the docstring of this module)
-"""
